@@ -223,3 +223,25 @@ Proof.
 Lemma acc_answers_from qi pool st st' outs d :
   acc qi pool st st' outs d -> msub (answers qi outs) (pool ++ held st).
 Proof. intros H i. rewrite (cnt_perm _ _ H i), !cnt_app. lia. Qed.
+
+(* the counting form is equivalent: the slack is the multiset difference *)
+Lemma msub_perm a : forall b, msub a b -> exists c, Permutation b (a ++ c).
+Proof.
+  induction a as [|x a IH]; intros b H.
+  - exists b. reflexivity.
+  - assert (Hin : In x b).
+    { apply (count_occ_In inst_dec). specialize (H x). rewrite cnt_cons in H. unfold cnt1 in H.
+      destruct (inst_dec x x); [|congruence]. unfold cnt in H. lia. }
+    apply in_split in Hin. destruct Hin as (b1 & b2 & ->).
+    destruct (IH (b1 ++ b2)) as [c Hc].
+    { intros i. specialize (H i). rewrite cnt_cons, cnt_app, cnt_cons in H. rewrite cnt_app. lia. }
+    exists c. simpl. rewrite <- Hc. symmetry. apply Permutation_middle.
+Qed.
+
+Lemma Inv_of_counts st received answered :
+  (forall i, (cnt answered i + cnt (held st) i <= cnt received i)%nat) -> Inv st received answered.
+Proof.
+  intros H. destruct (msub_perm (answered ++ held st) received) as [c Hc].
+  { intros i. rewrite cnt_app. apply H. }
+  exists c. rewrite <- app_assoc in Hc. exact Hc.
+Qed.
